@@ -219,6 +219,12 @@ theorem round_trip_after_compile (proj : Nat → Nat) (reg : Registry) (hwf : WF
     obtain ⟨h1, _⟩ := mem_zip_map (dispatchMethod c.graph) c.methods mo hmo
     rw [h1]
     simp [dispatchMethod]
+  · -- one `next` per definition
+    intro mo hmo
+    rw [houts] at hmo
+    obtain ⟨h1, _⟩ := mem_zip_map (dispatchMethod c.graph) c.methods mo hmo
+    rw [h1]
+    simp [dispatchMethod]
   · -- tables
     intro mo hmo harity
     obtain ⟨mi, hmi⟩ := List.getElem?_of_mem hmo
